@@ -43,10 +43,9 @@ NOT_COVERED["C13"] = ["exactly-once across a whole run is per call: each call of
                       "'in non-decreasing scheduled-time order' holds per pop (a minimum of the queue at that time); jobs scheduled into the past by handlers run late by design",
                       "a heap list manipulated other than through heapq (append, sort, ...) is outside the set abstraction: reported as undecided, not as a violation"]
 NOT_COVERED["C14"] = ["EventDispatcher.run (signal handlers, two async-with task groups, asynccontextmanager): phase order, finalize-exactly-once and 'handlers in flight are cancelled, not awaited' are not under contract in the committed machinery -- a contract exists (contracts/attic_run.py) but its 243 paths / 5402 obligations did not discharge within 16 CPU-hours",
-                      "RealtimeDispatcher._on_idle body (trusted contract; its precondition `pool idle` is proved at the call site)",
-                      "bounded concurrency is the TaskPool invariant |_tasks| <= _max_size under both interference models; that every user coroutine goes through the pool is by inspection of the call sites"]
+                                            "bounded concurrency is the TaskPool invariant |_tasks| <= _max_size under both interference models; that user coroutines go through the pool is proved for idle handlers (_on_idle: ghost trace of the gathered batch) and is by construction for events / jobs (_dispatch_event / _execute_scheduled are only ever handed to TaskPool.push in the verified loops)"]
 NOT_COVERED["C15"] = ["'every event and job is eventually dispatched once due' is liveness (fairness of the asyncio loop, termination of handlers): not covered",
-                      "RealtimeDispatcher._on_idle body (trusted)"]
+                      ]
 LEVELS["C14"] = "other"
 
 LEVELS["C19"] = "proof"
